@@ -784,6 +784,232 @@ def gen_tree_cases(ctx):
     return cases
 
 
+# =========================================================================== effective Hamiltonians (exported to C05)
+
+def heff_line(case):
+    fn = case["fn"]
+    if fn == "siteheff":
+        return f"C04 siteheff {case['i']} {_node_tok(case['state'])} {_node_tok(case['ham'])}"
+    if fn == "linkheff":
+        return f"C04 linkheff {_node_tok(case['link'])} {case['node']} {case['next']}"
+    if fn == "twoheff":
+        return (f"C04 twoheff {case['t']} {case['x']} {_node_tok(case['hamt'])} {_node_tok(case['hamx'])} "
+                f"{_node_tok(case['two'])}")
+    raise ValueError(fn)
+
+
+class _LayerDims:
+    """Dimensions distinct within each layer (ket / bra / operator bonds, output / input legs), small enough
+    for the matricised effective Hamiltonian."""
+
+    def __init__(self, rng, distinct):
+        self.rng, self.distinct, self.d, self.pools = rng, distinct, {}, {}
+
+    def get(self, cls):
+        if cls not in self.d:
+            layer = cls[0]
+            if self.distinct:
+                pool = self.pools.setdefault(layer, self.rng.sample([2, 3, 4, 5], 4))
+                self.d[cls] = pool.pop() if pool else self.rng.choice([2, 3])
+            else:
+                self.d[cls] = self.rng.choice([1, 2, 2, 3])
+        return self.d[cls]
+
+
+def _run_heff_impl(case):
+    """Run the real function; returns ('mat', tensor_before_matricisation|None, matrix, operands) | ('error', text)."""
+    import types
+    from pytreenet.contractions import effective_hamiltonians as eh
+    from pytreenet.contractions.tree_cach_dict import PartialTreeCachDict
+    from pytreenet.time_evolution.tdvp_algorithms.onesitetdvp import OneSiteTDVP
+    from pytreenet.time_evolution.tdvp_algorithms.twositetdvp import TwoSiteTDVP
+    rng = random.Random(case["seed"])
+    nprng = np.random.default_rng(case["seed"])
+    dims = _LayerDims(rng, case.get("distinct", True))
+    fn = case["fn"]
+
+    def rnd(shape):
+        return gen.rand_tensor(nprng, shape, True, False)
+
+    def block(n, i):
+        arr = rnd([dims.get(("K", n, i)), dims.get(("O", n, i)), dims.get(("B", n, i))])
+        return arr, [f"gK{n}_{i}", f"gO{n}_{i}", f"gB{n}_{i}"]
+
+    def op_tensor(i, nd):
+        nbs = _nbrs(nd)
+        # the operator leg toward n pairs with the ham leg of block n->i
+        arr = rnd([dims.get(("O", n, i)) for n in nbs] + [dims.get(("out", i)), dims.get(("in", i))])
+        return arr, [f"gO{i}_{n}" for n in nbs] + [f"gOO{i}", f"gOI{i}"]
+    cache = PartialTreeCachDict()
+    try:
+        if fn == "siteheff":
+            i = case["i"]
+            st, hm = case["state"], case["ham"]
+            sn, hn = _mk_node(i, st, 0), _mk_node(i, hm, 0)
+            h_arr, h_lab = op_tensor(i, hm)
+            hn.link_tensor(h_arr)
+            operands = [(h_arr, h_lab)]
+            for n in _nbrs(hm):
+                b, lab = block(n, i)
+                cache.add_entry(str(n), str(i), b)
+                operands.append((b, lab))
+            ten = eh.contract_all_except_node(sn, hn, h_arr, cache)
+            mat = eh.get_effective_single_site_hamiltonian_nodes(sn, hn, h_arr, cache)
+            return ("mat", ten, mat, operands)
+        if fn == "linkheff":
+            a, b = case["node"], case["next"]
+            link = case["link"]
+            link_id = OneSiteTDVP.create_link_id(str(a), str(b))
+            ln = _mk_node(link_id, link, 0)
+            ba, la = block(a, b)
+            # the two ham legs are bound to each other: same dimension
+            bb_arr = rnd([dims.get(("K", b, a)), dims.get(("O", a, b)), dims.get(("B", b, a))])
+            lb = [f"gK{b}_{a}", f"gO{b}_{a}", f"gB{b}_{a}"]
+            cache.add_entry(str(a), str(b), ba)
+            cache.add_entry(str(b), str(a), bb_arr)
+            fake = types.SimpleNamespace(state=types.SimpleNamespace(nodes={link_id: ln}), partial_tree_cache=cache,
+                                         create_link_id=OneSiteTDVP.create_link_id)
+            mat = OneSiteTDVP._get_effective_link_hamiltonian(fake, str(a), str(b))
+            return ("mat", None, mat, [(ba, la), (bb_arr, lb)])
+        if fn == "twoheff":
+            t, x = case["t"], case["x"]
+            ht, hx, two = case["hamt"], case["hamx"], case["two"]
+            two_id = TwoSiteTDVP.create_two_site_id(str(t), str(x))
+            # the operator bond t-x: one dimension for both ends
+            dims.d[("O", x, t)] = dims.get(("O", t, x))
+            nt, nx = _mk_node(t, ht, 0), _mk_node(x, hx, 0)
+            at, lt = op_tensor(t, ht)
+            ax, lx = op_tensor(x, hx)
+            nt.link_tensor(at)
+            nx.link_tensor(ax)
+            operands = [(at, lt), (ax, lx)]
+            for n in _nbrs(ht):
+                if n != x:
+                    b, lab = block(n, t)
+                    cache.add_entry(str(n), str(t), b)
+                    operands.append((b, lab))
+            for n in _nbrs(hx):
+                if n != t:
+                    b, lab = block(n, x)
+                    cache.add_entry(str(n), str(x), b)
+                    operands.append((b, lab))
+            ham = types.SimpleNamespace(nodes={str(t): nt, str(x): nx}, tensors={str(t): at, str(x): ax})
+            fake = types.SimpleNamespace(hamiltonian=ham, partial_tree_cache=cache,
+                                         state=types.SimpleNamespace(nodes={two_id: _mk_node(two_id, two, 0)}),
+                                         create_two_site_id=TwoSiteTDVP.create_two_site_id)
+            for name in ("_find_block_leg_target_node", "_find_block_leg_next_node",
+                         "_determine_two_site_leg_permutation", "_contract_all_except_two_nodes"):
+                setattr(fake, name, types.MethodType(getattr(TwoSiteTDVP, name), fake))
+            ten = fake._contract_all_except_two_nodes(str(t), str(x))
+            mat = TwoSiteTDVP._get_effective_two_site_hamiltonian(fake, str(t), str(x))
+            return ("mat", ten, mat, operands)
+    except Exception as e:      # noqa: BLE001
+        return ("error", f"{type(e).__name__}: {str(e)[:120]}")
+    raise ValueError(fn)
+
+
+def _case_heff(ctx, case, model_out=None):
+    if model_out is None:
+        model_out = ctx.lean.batch([heff_line(case)])[0]
+    fn = case["fn"]
+    res = _run_heff_impl(case)
+    ctx.tally("heff_fn", fn)
+    ctx.tally("heff_outcome", res[0])
+    ctx.count(("heff", heff_line(case), case.get("distinct", True)), nontrivial=case.get("nontrivial", True),
+              corr=True)
+    if model_out == "bad-op":
+        ctx.corr_fail(case, f"model rejects {heff_line(case)!r}")
+        return
+    if res[0] == "error":
+        if model_out != "error":
+            ctx.corr_fail(case, f"{fn}: library raised {res[1]} but the model answers [{model_out[:200]}]")
+        return
+    if model_out == "error":
+        ctx.corr_fail(case, f"{fn}: model predicts an exception, library returned a matrix")
+        return
+    _, ten, mat, operands = res
+    parts = model_out.split(" | ")
+    rows, cols = parts[0].split()[1:], parts[1].split()[1:]
+    ref, prob = _einsum_from_model("legs " + " ".join(rows + cols) + " | " + parts[2], operands)
+    if prob:
+        ctx.corr_fail(case, f"{fn}: {prob}; model [{model_out[:300]}]")
+        return
+    if ten is not None and tuple(np.asarray(ten).shape) != tuple(ref.shape):
+        ctx.corr_fail(case, f"{fn}: tensor shape {np.asarray(ten).shape} != predicted (rows, cols) legs {ref.shape}")
+        return
+    d = int(np.prod(ref.shape[:len(rows)])) if rows else 1
+    refm = ref.reshape(d, -1)
+    mat = np.asarray(mat)
+    if mat.shape != refm.shape or np.linalg.norm(mat - refm) > 1e-9 * max(float(np.linalg.norm(refm)), 1e-300):
+        ctx.corr_fail(case, f"{fn}: H_eff differs from rows/cols/bindings predicted by the model [{model_out[:300]}]")
+
+
+def gen_heff_cases(ctx):
+    rng = ctx.subrng("heff")
+    cases = []
+    for _ in range(ctx.n(220, 2500)):
+        fn = rng.choice(["siteheff", "siteheff", "twoheff", "twoheff", "linkheff"])
+        seed = rng.randrange(10 ** 9)
+        if fn == "siteheff":
+            m = rng.choice([0, 1, 2, 3, 3, 4])
+            distinct = m <= 3 and rng.random() < 0.6
+            ids = rng.sample(range(1, 40), m + 1)
+            i, nb = ids[0], ids[1:]
+            has_parent = m > 0 and rng.random() < 0.6
+            st = (nb[0], nb[1:]) if has_parent else (None, nb)
+            ch = list(st[1])
+            rng.shuffle(ch)
+            hm = (st[0], ch)
+            if has_parent and rng.random() < 0.2:        # re-rooted operator node (parent differs)
+                allnb = list(nb)
+                rng.shuffle(allnb)
+                hm = (None, allnb)
+            c = {"kind": "heff", "fn": fn, "i": i, "state": st, "ham": hm, "seed": seed, "distinct": distinct,
+                 "nontrivial": m >= 2 and _nbrs(st) != _nbrs(hm)}
+            if rng.random() < 0.08 and m >= 1:           # malformed: foreign neighbour in the operator node
+                c["ham"] = (hm[0], list(hm[1][:-1]) + [99]) if hm[1] else (99, [])
+            cases.append(c)
+        elif fn == "linkheff":
+            a, b = rng.sample(range(1, 40), 2)
+            link = (b, [a]) if rng.random() < 0.5 else (a, [b])
+            c = {"kind": "heff", "fn": fn, "link": link, "node": a, "next": b, "seed": seed,
+                 "distinct": True, "nontrivial": True}
+            r = rng.random()
+            if r < 0.1:
+                c["link"] = (None, [a])                  # a root: the assertion fails
+            elif r < 0.2:
+                c["link"] = (b, [a, 77])
+            cases.append(c)
+        else:
+            mt, mx = rng.choice([0, 1, 2, 2]), rng.choice([0, 1, 2, 2])
+            ids = rng.sample(range(1, 40), 2 + mt + mx)
+            t, x = ids[0], ids[1]
+            nt, nx = ids[2:2 + mt], ids[2 + mt:]
+            # tree orientation: x child of t, or t child of x
+            if rng.random() < 0.5:
+                par_t = nt[0] if (nt and rng.random() < 0.6) else None
+                kt = [n for n in nt if n != par_t] + [x]
+                rng.shuffle(kt)
+                hamt, hamx = (par_t, kt), (t, rng.sample(nx, len(nx)))
+                two_par = par_t
+            else:
+                par_x = nx[0] if (nx and rng.random() < 0.6) else None
+                kx = [n for n in nx if n != par_x] + [t]
+                rng.shuffle(kx)
+                hamx, hamt = (par_x, kx), (x, rng.sample(nt, len(nt)))
+                two_par = par_x
+            kids2 = [n for n in nt + nx if n != two_par]
+            rng.shuffle(kids2)
+            two = (two_par, kids2)
+            distinct = (mt + mx) <= 3 and rng.random() < 0.6
+            c = {"kind": "heff", "fn": fn, "t": t, "x": x, "hamt": hamt, "hamx": hamx, "two": two, "seed": seed,
+                 "distinct": distinct, "nontrivial": mt + mx >= 2}
+            if rng.random() < 0.06 and kids2:
+                c["two"] = (two_par, kids2[:-1] + [98])  # foreign neighbour: NotCompatibleException
+            cases.append(c)
+    return cases
+
+
 # =========================================================================== cases
 
 def gen_cases(ctx):
@@ -816,6 +1042,12 @@ def run(ctx):
         if ctx.time_left() < 0:
             break
         _case_legs(ctx, c, mo)
+    heffs = gen_heff_cases(ctx)
+    outs = ctx.lean.batch([heff_line(c) for c in heffs])
+    for c, mo in zip(heffs, outs):
+        if ctx.time_left() < 0:
+            break
+        _case_heff(ctx, c, mo)
     trees = gen_tree_cases(ctx)
     outs = ctx.lean.batch([tree_line(c) for c in trees])
     for c, mo in zip(trees, outs):
@@ -833,6 +1065,12 @@ def run_case(ctx, case):
         _case_values(ctx, case)
     elif case.get("kind") == "tree":
         _case_tree(ctx, case)
+    elif case.get("kind") == "heff":
+        case = dict(case)
+        for k in ("state", "ham", "link", "hamt", "hamx", "two"):
+            if k in case:
+                case[k] = (case[k][0], list(case[k][1]))
+        _case_heff(ctx, case)
     elif case.get("kind") == "legs":
         case = dict(case)
         for k in ("ket", "bra", "op"):      # JSON round trip turns the pairs into lists
